@@ -13,7 +13,7 @@ func init() {
 	register(&Def{
 		ID:    "C03",
 		Level: "exploration",
-		Rule: "every element type x channel counts 1..8 x destination (length,capacity) x source length classes {0, 1 frame, one frame short of the spare capacity, exact fit, one frame too many, far too many} x destination kind {standalone, window with spare capacity inside a larger stamped buffer watched by sibling views} x source kind {separate buffer, prefix slice of the destination, an earlier window of the same storage, the destination itself}, plus seeded chains of 1..20 appends; " +
+		Rule: "every element type x channel counts 1..8 x destination (length,capacity) x source length classes {0, 1 frame, one frame short of the spare capacity, exact fit, one frame too many, far too many} x destination kind {standalone, window with spare capacity inside a larger stamped buffer watched by sibling views} x source kind {separate buffer, prefix / suffix / middle slice of the destination's own samples, an earlier window of the same storage, the destination itself}, plus seeded chains of 1..20 appends; " +
 			"after every Append the reference model (old ++ source, length, capacity multiple of C and >= length, in place iff capacity sufficed, base address, fresh disjoint storage on growth, source unchanged) is compared over every live view and every storage through the hook; " +
 			"distinct = distinct (type, C, destination shape, source kind, source length, step) tuples; non-trivial = source length > 0",
 		Assume: []string{"domain as stated by the property: equal channel counts, frame-aligned operands, sources not overlapping the destination's spare capacity unless the source is the destination",
@@ -111,7 +111,7 @@ func runC03(c *core.Ctx) {
 							if sn < 0 {
 								continue
 							}
-							for _, srcKind := range []string{"fresh", "prefix", "earlier", "self"} {
+							for _, srcKind := range []string{"fresh", "prefix", "suffix", "middle", "earlier", "self"} {
 								caseID := fmt.Sprintf("%s/C%d/L%d/K%d/%s/%s/n%d", t.Name, ch, l, k, dstKind, srcKind, sn)
 								if !c.Want(caseID) {
 									continue
@@ -235,6 +235,17 @@ func c03Case(c *core.Ctx, t *dyn.TypeOps, ch, l, k int, dstKind, srcKind string,
 			return
 		}
 		src = w.Slice(dst, 0, sn, "src-prefix")
+	case "suffix":
+		// the last sn frames of the destination's own samples (not from frame 0)
+		if sn < 1 || sn >= l {
+			return
+		}
+		src = w.Slice(dst, l-sn, l, "src-suffix")
+	case "middle":
+		if sn < 1 || sn+2 > l {
+			return
+		}
+		src = w.Slice(dst, 1, 1+sn, "src-middle")
 	case "earlier":
 		if root == nil || sn > lead {
 			return
